@@ -58,6 +58,11 @@ class staterror_builder:
 
         for modifier_name, modifier in self.builder_data.items():
             for sample_name, sample in modifier.items():
+                # lengths are compared channel by channel, not only in total
+                per_channel_data = {
+                    key: [list(channel_data) for channel_data in sample["data"][key]]
+                    for key in ("nom_data", "uncrt")
+                }
                 sample["data"]["mask"] = default_backend.concatenate(
                     sample["data"]["mask"]
                 )
@@ -67,7 +72,12 @@ class staterror_builder:
                 sample["data"]["nom_data"] = default_backend.concatenate(
                     sample["data"]["nom_data"]
                 )
-                if len(sample["data"]["nom_data"]) != len(sample["data"]["uncrt"]):
+                if not all(
+                    len(nom_data) == len(uncrt)
+                    for nom_data, uncrt in zip(
+                        per_channel_data["nom_data"], per_channel_data["uncrt"]
+                    )
+                ):
                     _modifier_type, _modifier_name = modifier_name.split("/")
                     _sample_data_len = len(sample["data"]["nom_data"])
                     _uncrt_len = len(sample["data"]["uncrt"])
